@@ -46,9 +46,9 @@ def setup_worker() -> None:
     import zorg.service.swog._saved_queries as sq
 
     listeners.install()
-    harness.COUNTERS.watch("expand_saved_queries", sq.expand_saved_queries)
-    harness.COUNTERS.watch("_get_saved_where_filter", sq._get_saved_where_filter)
-    harness.COUNTERS.watch("execute_with_session", ex.execute_with_session)
+    harness.COUNTERS.watch_attr(sq, "expand_saved_queries")
+    harness.COUNTERS.watch_attr(sq, "_get_saved_where_filter")
+    harness.COUNTERS.watch_attr(ex, "execute_with_session")
 
 
 def plan(tier: str, seed: int) -> list[dict]:
